@@ -2119,6 +2119,7 @@ namespace
         size_t pop_frame_count = 0;
         if (target_scope.empty())
         { // Empty just pops
+            context.clear_values();
             context.pop_frame();
             return left;
         }
@@ -2130,6 +2131,8 @@ namespace
                 {
                     for (pop_frame_count++; pop_frame_count != 0; --pop_frame_count)
                     {
+                        // Drop the operands the left scope still had pending
+                        context.clear_values();
                         context.pop_frame();
                     }
                     return left;
